@@ -307,6 +307,13 @@ func genWorld(t *rapid.T, o WorldOpts) *Desc {
 						if a.Min == 0 {
 							am.Center = boolp(true)
 						}
+					case 4:
+						// one direction only in the other mapping, or a second direction that this one does not have
+						if a.NoteNeg != nil {
+							am.NoteNeg = nil
+						} else {
+							am.NoteNeg = intp(clampNote(*a.Note + 3))
+						}
 					}
 				}
 				m.Axes = append(m.Axes, am)
